@@ -162,6 +162,27 @@ def gen_prog(rng, n_ops, profile, mfs):
     return prog
 
 
+BLOCK_OPS = ('set', 'setitem', 'add', 'get', 'getitem', 'contains', 'touch', 'incr', 'decr', 'pop', 'delete', 'delitem', 'advance')
+
+
+def add_blocks(rng, prog, p=0.25):
+    """Wrap runs of 2-5 simple operations (clock steps included) into transact() blocks: time passes INSIDE a block, every
+    call in it still sees the clock as it is at that call."""
+    out = []
+    i = 0
+    while i < len(prog):
+        n = rng.randint(2, 5)
+        run = prog[i:i + n]
+        if rng.random() < p and len(run) >= 2 and all(o['op'] in BLOCK_OPS and not o.get('read') for o in run) \
+                and any(o['op'] != 'advance' for o in run):
+            out.append({'op': 'block', 'body': run})
+            i += len(run)
+        else:
+            out.append(prog[i])
+            i += 1
+    return out
+
+
 def open_cache(dc, path, settings, disk=None):
     kw = {}
     if disk == 'json':
@@ -204,6 +225,33 @@ def run_prog(case, pid, at_limit_fn=None, on_step=None):
             cache = handles[pi]
             now = sim.now + skews[pi]
             stats['ops'] += 1
+            if name == 'block':
+                # a transact() block in which the clock moves: each call is compared with the model at its own instant; the
+                # physical rows are compared once the block has committed (generated only where no write culls lazily)
+                probes['blocks'] = probes.get('blocks', 0) + 1
+                with cache.transact():
+                    for sub in op['body']:
+                        if sub['op'] == 'advance':
+                            sim.advance(sub['dt'])
+                            continue
+                        now = sim.now + skews[pi]
+                        got = run_op(cache, sub, {'stream_rng': sim.rng_os})
+                        want = model.do(sub, now)
+                        if want is not None and tuple(got) != tuple(want):
+                            violations.append({'rule': '%s/result' % pid, 'sig': 'block:' + sub['op'],
+                                               'detail': 'op #%d, inside a block, %s at t=%r: got %s, model %s' % (
+                                                   idx, json.dumps(sub)[:120], now, got, want)})
+                            break
+                if violations:
+                    break
+                model.pending = None
+                model.reconcile(raw.rowids(), now, violations, pid, at_limit=None)
+                if not violations:
+                    compare_meta(model, raw, violations, pid)
+                if violations:
+                    violations[-1]['detail'] = 'after block op #%d: %s' % (idx, violations[-1]['detail'])
+                    break
+                continue
             if name == 'iterkeys':
                 r1 = run_op(cache, {'op': 'iterkeys'})
                 r2 = run_op(cache, {'op': 'iterkeys', 'reverse': True})
